@@ -326,7 +326,12 @@ macro_rules! impl_rank_small_sel {
                     // with value given by the number of bits. Thus, we must
                     // handle the case in which inv_idx is the the last
                     // inventory entry as a special case.
-                    last_block_idx = self.len().div_ceil(Self::BLOCK_BIT_SIZE);
+                    // As in the previous case, the search must not leave the
+                    // upper block containing the rank: the absolute counters of
+                    // the following upper blocks start again from zero.
+                    last_block_idx = self.len().div_ceil(Self::BLOCK_BIT_SIZE).min(
+                        (upper_block_idx + 1) * (Self::SUPERBLOCK_BIT_SIZE / Self::BLOCK_BIT_SIZE),
+                    );
                 }
 
                 debug_assert!(block_idx < counts.len());
